@@ -160,6 +160,85 @@ impl Shape for NoDropClone {
     }
 }
 
+/// equal keys are distinguishable (version), and there is no destructor anywhere
+#[derive(Clone, Copy)]
+pub struct Tagged {
+    pub class: u8,
+    pub ver: u8,
+}
+impl PartialEq for Tagged {
+    fn eq(&self, o: &Tagged) -> bool {
+        self.class == o.class
+    }
+}
+
+/// stored-key identity (C12) for key types without drop glue: which version is stored / handed back
+fn edge_tagged<const N: usize>(t: &Value, line: usize, rep: &mut Report) {
+    let op = &t["o"];
+    let name = op["name"].as_str().unwrap();
+    if !matches!(name, "insert" | "insert_key_value" | "checked_insert" | "from_iter" | "from_array") {
+        return;
+    }
+    let mut fails: Vec<Fail> = vec![];
+    let mut m = Cage::new(Map::<Tagged, u8, N>::new());
+    for e in t["s"].as_array().unwrap() {
+        m.m.insert(Tagged { class: e[0].as_u64().unwrap() as u8, ver: e[1].as_u64().unwrap() as u8 }, e[2].as_u64().unwrap() as u8);
+    }
+    let k = Tagged { class: op["k"]["c"].as_u64().unwrap_or(0) as u8, ver: op["k"]["r"].as_u64().unwrap_or(0) as u8 };
+    let v = op["v"]["v"].as_u64().unwrap_or(0) as u8;
+    let mm = &mut m.m;
+    let mut alloc = 0u64;
+    let done = match name {
+        "insert" => measured(&mut alloc, || {
+            mm.insert(k, v);
+        }),
+        "insert_key_value" => measured(&mut alloc, || {
+            mm.insert_key_value(k, v);
+        }),
+        "checked_insert" => measured(&mut alloc, || {
+            mm.checked_insert(k, v);
+        }),
+        _ => {
+            let items: Vec<(Tagged, u8)> = op["items"]
+                .as_array()
+                .unwrap()
+                .iter()
+                .map(|it| (Tagged { class: it["k"]["c"].as_u64().unwrap() as u8, ver: it["k"]["r"].as_u64().unwrap() as u8 }, it["v"]["v"].as_u64().unwrap() as u8))
+                .collect();
+            if name == "from_array" {
+                let mut it = items.into_iter();
+                let arr: [(Tagged, u8); N] = std::array::from_fn(|_| it.next().unwrap());
+                measured(&mut alloc, || {
+                    *mm = Map::from(arr);
+                })
+            } else {
+                measured(&mut alloc, || {
+                    *mm = items.into_iter().collect();
+                })
+            }
+        }
+    };
+    if done.is_some() && m.intact() && m.m.len() <= N {
+        let mut obs: Vec<(u8, u8, u8)> = m.m.iter().map(|(k, v)| (k.class, k.ver, *v)).collect();
+        obs.sort();
+        let mut exp: Vec<(u8, u8, u8)> =
+            t["p"].as_array().unwrap().iter().map(|e| (e[1].as_u64().unwrap() as u8, e[2].as_u64().unwrap() as u8, e[4].as_u64().unwrap() as u8)).collect();
+        exp.sort();
+        if obs != exp {
+            let same_content = obs.iter().map(|x| (x.0, x.2)).collect::<Vec<_>>() == exp.iter().map(|x| (x.0, x.2)).collect::<Vec<_>>();
+            fails.push(Fail {
+                props: if same_content { "C12".into() } else { crate::replay::op_props(op, false, &t["r"]) },
+                msg: format!("[plain-tagged, no drop glue] stored (class, version, value): observed {obs:?}, the model says {exp:?}"),
+            });
+        }
+    } else if !m.intact() || m.m.len() > N {
+        std::mem::forget(m);
+        finish(t, line, vec![Fail { props: "C03,C05".into(), msg: "[plain-tagged] memory outside the container was written".into() }], rep);
+        return;
+    }
+    finish(t, line, fails, rep);
+}
+
 fn measured<R>(allocs: &mut u64, f: impl FnOnce() -> R) -> Option<R> {
     ledger::arm();
     let r = catch_unwind(AssertUnwindSafe(f));
@@ -198,7 +277,7 @@ fn supported(name: &str) -> bool {
     matches!(
         name,
         "insert" | "insert_key_value" | "checked_insert" | "get" | "get_key_value" | "contains_key" | "get_mut" | "index" | "index_mut" | "remove"
-            | "remove_entry" | "retain" | "clear" | "from_iter" | "clone" | "s_insert" | "s_replace" | "s_contains" | "s_get" | "s_remove"
+            | "remove_entry" | "retain" | "clear" | "from_iter" | "from_array" | "clone" | "s_insert" | "s_replace" | "s_contains" | "s_get" | "s_remove"
             | "s_take" | "s_retain" | "s_clear" | "s_extend" | "s_from_iter"
     )
 }
@@ -591,6 +670,7 @@ pub fn run_shapes(table: &Table, set_mode: bool, rep: &mut Report) -> std::colle
             go!(Heap, edge_map_h, t, idx, n);
             go!(Large, edge_map_l, t, idx, n);
             go!(NoDropClone, edge_map_c, t, idx, n);
+            crate::replay::with_n!(n, edge_tagged, t, idx, rep);
         }
         *rep.op_counts.entry(crate::replay::op_label(&t["o"])).or_insert(0) += 1;
         rep.distinct_states.insert(format!("{n}:{}", t["s"]));
